@@ -426,6 +426,20 @@ func (c *FnCtx) applyContract(spec *FuncSpec, sig *types.Signature, names []stri
 		}
 		c.assume(*reach, tv.t)
 	}
+	// ghost effects: the protocol state after the call
+	for _, ef := range spec.Effects {
+		tv, err := c.evalSpec(ef.E, post)
+		if err != nil {
+			c.abort("callee %s effect %s: %v", spec.Name, ef.Name, err)
+			return nil
+		}
+		k := "GH_" + ef.Name[1:]
+		c.g.heapSorts[k] = SBool
+		c.heap(c.entry, k, SBool)
+		nv := c.fresh("gh_"+ef.Name[1:], SBool)
+		c.define(eq(nv, tv.t))
+		st.heaps[k] = nv
+	}
 	return results
 }
 
